@@ -9,6 +9,7 @@ package db
 import (
 	"errors"
 	"fmt"
+	"strconv"
 	"strings"
 
 	"github.com/alicebob/sqlittle/sql"
@@ -140,7 +141,7 @@ func newCreateTable(ct sql.CreateTableStmt) (*Schema, error) {
 			Column:  c.Name,
 			Type:    c.Type,
 			Null:    c.Null,
-			Default: c.Default,
+			Default: applyAffinity(c.Type, c.Default),
 			Collate: c.Collate,
 			Rowid:   false,
 		})
@@ -399,4 +400,106 @@ func isRowid(tableConstraint bool, typ string, dir sql.SortOrder) bool {
 		return false
 	}
 	return tableConstraint || dir == sql.Asc
+}
+
+// applyAffinity converts a DEFAULT value the way SQLite converts a value
+// stored in a column of the declared type (https://sqlite.org/datatype3.html
+// chapter 3). Rows written before an `ALTER TABLE ADD COLUMN` get their value
+// for the new column from here.
+func applyAffinity(typ string, v interface{}) interface{} {
+	t := strings.ToUpper(typ)
+	has := func(subs ...string) bool {
+		for _, s := range subs {
+			if strings.Contains(t, s) {
+				return true
+			}
+		}
+		return false
+	}
+	switch {
+	case has("INT"):
+		return numericAffinity(v, false)
+	case has("CHAR", "CLOB", "TEXT"):
+		if n, ok := v.(int64); ok {
+			return strconv.FormatInt(n, 10)
+		}
+		return v
+	case t == "" || has("BLOB"):
+		return v
+	case has("REAL", "FLOA", "DOUB"):
+		return numericAffinity(v, true)
+	default:
+		return numericAffinity(v, false)
+	}
+}
+
+// numericAffinity turns text that looks like a number into that number:
+// an integer when it has an integral value (unless real is set), a float
+// otherwise. Everything else stays as it is.
+func numericAffinity(v interface{}, real bool) interface{} {
+	switch vt := v.(type) {
+	case int64:
+		if real {
+			return float64(vt)
+		}
+		return vt
+	case string:
+		s := strings.Trim(vt, " \t\n\r\f\v")
+		if !looksNumeric(s) {
+			return v
+		}
+		if n, err := strconv.ParseInt(strings.TrimPrefix(s, "+"), 10, 64); err == nil {
+			if real {
+				return float64(n)
+			}
+			return n
+		}
+		f, err := strconv.ParseFloat(s, 64)
+		if err != nil {
+			return v
+		}
+		if !real && f >= -9223372036854775808.0 && f < 9223372036854775808.0 && float64(int64(f)) == f {
+			return int64(f)
+		}
+		return f
+	}
+	return v
+}
+
+// [+-]digits[.digits][e[+-]digits], with at least one digit before the exponent
+func looksNumeric(s string) bool {
+	i, n := 0, len(s)
+	if i < n && (s[i] == '+' || s[i] == '-') {
+		i++
+	}
+	digits := 0
+	for i < n && s[i] >= '0' && s[i] <= '9' {
+		i++
+		digits++
+	}
+	if i < n && s[i] == '.' {
+		i++
+		for i < n && s[i] >= '0' && s[i] <= '9' {
+			i++
+			digits++
+		}
+	}
+	if digits == 0 {
+		return false
+	}
+	if i < n && (s[i] == 'e' || s[i] == 'E') {
+		i++
+		if i < n && (s[i] == '+' || s[i] == '-') {
+			i++
+		}
+		e := 0
+		for i < n && s[i] >= '0' && s[i] <= '9' {
+			i++
+			e++
+		}
+		if e == 0 {
+			return false
+		}
+	}
+	return i == n
 }
